@@ -213,5 +213,264 @@ theorem loadLoop_run (next : σ → Except Bool (π × σ)) (dec : π → Except
 
 end Loop
 
+/-! ## frames: grouping, packets, the whole static load -/
+
+/-- `q` frames of `ch` codes each -/
+def groupFrames (ch : Nat) : Nat → List Nat → List (List Nat)
+  | 0, _ => []
+  | q + 1, cs => cs.take ch :: groupFrames ch q (cs.drop ch)
+
+theorem groupFrames_length_mem (ch : Nat) : ∀ (q : Nat) (cs : List Nat), cs.length = q * ch →
+    ∀ g ∈ groupFrames ch q cs, g.length = ch := by
+  intro q
+  induction q with
+  | zero => intro cs _ g hg; simp [groupFrames] at hg
+  | succ q ih =>
+    intro cs hlen g hg
+    simp only [groupFrames, List.mem_cons] at hg
+    have h1 : ch ≤ cs.length := by rw [hlen, Nat.succ_mul]; omega
+    rcases hg with rfl | hg
+    · simp [List.length_take, h1]
+    · exact ih (cs.drop ch) (by rw [List.length_drop, hlen, Nat.succ_mul]; omega) g hg
+
+theorem groupFrames_split (ch : Nat) : ∀ (q r : Nat) (cs : List Nat),
+    groupFrames ch (q + r) cs = groupFrames ch q (cs.take (q * ch)) ++ groupFrames ch r (cs.drop (q * ch)) := by
+  intro q
+  induction q with
+  | zero => intro r cs; simp [groupFrames]
+  | succ q ih =>
+    intro r cs
+    have e : q + 1 + r = (q + r) + 1 := by omega
+    rw [e]
+    simp only [groupFrames, List.cons_append]
+    rw [ih r (cs.drop ch)]
+    have e2 : (q + 1) * ch = ch + q * ch := by rw [Nat.succ_mul]; omega
+    rw [e2, List.take_take, List.drop_take, List.drop_drop]
+    simp [Nat.min_eq_left (Nat.le_add_right ch (q * ch))]
+
+theorem InRange.take {f : Fmt} {cs : List Nat} (h : InRange f cs) (n : Nat) : InRange f (cs.take n) :=
+  fun c hc => h c (List.mem_of_mem_take hc)
+theorem InRange.drop {f : Fmt} {cs : List Nat} (h : InRange f cs) (n : Nat) : InRange f (cs.drop n) :=
+  fun c hc => h c (List.mem_of_mem_drop hc)
+
+/-- **packet decode**: the PCM codec model reads the encoded frames back, grouped per frame -/
+theorem readFrames_encodeData (f : Fmt) (ch : Nat) (hch : 0 < ch) :
+    ∀ (q N : Nat) (cs : List Nat), cs.length = q * ch → q ≤ N → InRange f cs →
+      readFrames f.bytes ch N (encodeData f cs) = groupFrames ch q cs := by
+  have hk := Fmt.bytes_pos f
+  have hB : 0 < ch * f.bytes := Nat.mul_pos hch hk
+  intro q
+  induction q with
+  | zero =>
+    intro N cs hlen _ _
+    have : cs = [] := List.length_eq_zero_iff.mp (by simpa using hlen)
+    subst this
+    cases N with
+    | zero => rfl
+    | succ N => simp [readFrames, encodeData, groupFrames]; omega
+  | succ q ih =>
+    intro N cs hlen hN hr
+    cases N with
+    | zero => omega
+    | succ N =>
+      have h1 : ch ≤ cs.length := by rw [hlen, Nat.succ_mul]; omega
+      have hsplit : cs = cs.take ch ++ cs.drop ch := (List.take_append_drop ch cs).symm
+      have hla : (cs.take ch).length = ch := by simp [List.length_take, h1]
+      have hea : (encodeData f (cs.take ch)).length = ch * f.bytes := by rw [encodeData_length, hla]
+      have henc : encodeData f cs = encodeData f (cs.take ch) ++ encodeData f (cs.drop ch) := by
+        rw [← encodeData_append, ← hsplit]
+      simp only [readFrames, groupFrames]
+      rw [henc, List.take_left' hea, List.drop_left' hea]
+      have hnot : ¬ (encodeData f (cs.take ch)).length < ch * f.bytes := by omega
+      simp only [hnot, if_false]
+      have hrs := readSamples_encodeData f (cs.take ch) [] (hr.take ch)
+      rw [List.append_nil, hla] at hrs
+      rw [hrs, ih N (cs.drop ch) (by rw [List.length_drop, hlen, Nat.succ_mul]; omega) (by omega) (hr.drop ch)]
+
+section Load
+variable {α : Type} [Add α] [Sub α] [Mul α] [Div α] [Neg α] [LT α] [LE α]
+  [DecidableLT α] [DecidableLE α] [OfScientific α] [KOps α]
+
+/-- the frame kira builds from the codes of one file frame: mono duplicated, stereo paired -/
+def frameOfCodes (fd : FloatDec α) (f : Fmt) (ch : Nat) (xs : List Nat) : Frame α :=
+  if ch = 1 then ⟨convSample fd f (xs.headD 0), convSample fd f (xs.headD 0)⟩
+  else ⟨convSample fd f (xs.headD 0), convSample fd f (xs.getD 1 0)⟩
+
+theorem assembleFrame_codes (fd : FloatDec α) (f : Fmt) (ch : Nat) (hch : ch = 1 ∨ ch = 2)
+    (xs : List Nat) (hx : xs.length = ch) :
+    assembleFrame ch (xs.map (convSample fd f)) = .ok (frameOfCodes fd f ch xs) := by
+  rcases hch with rfl | rfl
+  · match xs, hx with
+    | [m], _ => simp [assembleFrame, frameOfCodes]
+  · match xs, hx with
+    | [l, r], _ => simp [assembleFrame, frameOfCodes]
+
+theorem mapM_ok {β γ : Type} (g : β → Except Err γ) (h : β → γ) :
+    ∀ (l : List β), (∀ x ∈ l, g x = .ok (h x)) → l.mapM g = .ok (l.map h) := by
+  intro l
+  induction l with
+  | nil => intro _; rfl
+  | cons x xs ih =>
+    intro hx
+    rw [List.mapM_cons, hx x (by simp), ih (fun y hy => hx y (by simp [hy]))]
+    rfl
+
+/-- **one packet**: decoding the encoded bytes of `q ≤ 1152` whole frames (1 or 2 channels) gives
+    their frames -/
+theorem decodePacket_encodeData (fd : FloatDec α) (f : Fmt) (ch rate ba : Nat) (hch : ch = 1 ∨ ch = 2)
+    (q : Nat) (hq : q ≤ maxFramesPerPacket) (cs : List Nat) (hlen : cs.length = q * ch) (hr : InRange f cs) :
+    decodePacket fd ⟨f, ch, rate, ba⟩ (encodeData f cs)
+      = .ok ((groupFrames ch q cs).map (frameOfCodes fd f ch)) := by
+  have hpos : 0 < ch := by omega
+  unfold decodePacket assemble
+  simp only [hch, if_true]
+  rw [readFrames_encodeData f ch hpos q maxFramesPerPacket cs hlen hq hr, List.mapM_map]
+  exact mapM_ok _ _ _ (fun g hg =>
+    assembleFrame_codes fd f ch hch g (groupFrames_length_mem ch q cs hlen g hg))
+
+/-- one step of the demuxer model on a file whose data chunk holds `pre` followed by the encoded
+    frames `rem` (`r > 0` whole frames): it yields the next `min r 1152` frames -/
+theorem nextPacket_encodeData (f : Fmt) (ch : Nat) (hch : 0 < ch) (r : Nat) (hr : 0 < r)
+    (rem : List Nat) (hlen : rem.length = r * ch) (pre padd : List UInt8) :
+    nextPacket (ch * f.bytes) (pre.length + r * (ch * f.bytes)) (pre ++ (encodeData f rem ++ padd)) pre.length
+      = .packet (encodeData f (rem.take (min r maxFramesPerPacket * ch)))
+          ((pre ++ encodeData f (rem.take (min r maxFramesPerPacket * ch))).length) := by
+  have hk := Fmt.bytes_pos f
+  have hB : 0 < ch * f.bytes := Nat.mul_pos hch hk
+  have hq : 0 < min r maxFramesPerPacket := by
+    simp only [maxFramesPerPacket]; omega
+  have hqr : min r maxFramesPerPacket ≤ r := Nat.min_le_left _ _
+  generalize hqd : min r maxFramesPerPacket = q at hq hqr
+  have hB0 : ¬ (ch * f.bytes = 0) := by omega
+  have hlt : pre.length < pre.length + r * (ch * f.bytes) := by
+    have := Nat.mul_pos hr hB; omega
+  have hdiv : (pre.length + r * (ch * f.bytes) - pre.length) / (ch * f.bytes) = r := by
+    rw [Nat.add_sub_cancel_left, Nat.mul_div_cancel _ hB]
+  have hr0 : ¬ (r = 0) := by omega
+  -- the packet bytes
+  have hsplit : rem = rem.take (q * ch) ++ rem.drop (q * ch) := (List.take_append_drop _ rem).symm
+  have hla : (rem.take (q * ch)).length = q * ch := by
+    rw [List.length_take, hlen]; exact Nat.min_eq_left (Nat.mul_le_mul_right ch hqr)
+  have hea : (encodeData f (rem.take (q * ch))).length = q * (ch * f.bytes) := by
+    rw [encodeData_length, hla, Nat.mul_assoc]
+  have henc : encodeData f rem = encodeData f (rem.take (q * ch)) ++ encodeData f (rem.drop (q * ch)) := by
+    rw [← encodeData_append, ← hsplit]
+  have hne : (encodeData f (rem.take (q * ch))).isEmpty = false := by
+    have : 0 < (encodeData f (rem.take (q * ch))).length := by rw [hea]; exact Nat.mul_pos hq hB
+    cases h : encodeData f (rem.take (q * ch)) with
+    | nil => rw [h] at this; simp at this
+    | cons _ _ => rfl
+  unfold nextPacket
+  simp only [hB0, if_false, hlt, if_true, hdiv, hr0, hqd]
+  rw [List.drop_left' rfl, henc, List.append_assoc, List.take_left' hea]
+  simp only [hne, Bool.false_eq_true, if_false, List.length_append]
+
+/-- **the packet loop on an encoded file**: from the byte offset reached after `pre`, the static
+    loader appends exactly the remaining frames and stops (any fuel > number of frames left) -/
+theorem loadLoop_encodeData (fd : FloatDec α) (f : Fmt) (ch rate : Nat) (hch : ch = 1 ∨ ch = 2)
+    (fmt? : Option FmtChunk) (padd : List UInt8) :
+    ∀ (r : Nat) (rem : List Nat) (pre : List UInt8) (fuel : Nat) (acc : List (Frame α)),
+      rem.length = r * ch → InRange f rem → r < fuel →
+      loadLoop (wavNext ⟨f, ch, rate, ch * f.bytes⟩
+                  ⟨fmt?, pre.length + r * (ch * f.bytes), pre ++ (encodeData f rem ++ padd)⟩)
+               (decodePacket fd ⟨f, ch, rate, ch * f.bytes⟩) fuel pre.length acc
+        = .ok (acc ++ (groupFrames ch r rem).map (frameOfCodes fd f ch)) := by
+  have hpos : 0 < ch := by omega
+  intro r
+  induction r using Nat.strongRecOn with
+  | _ r ih =>
+    intro rem pre fuel acc hlen hrng hfuel
+    cases fuel with
+    | zero => omega
+    | succ fuel =>
+      by_cases hr : r = 0
+      · subst hr
+        have : rem = [] := List.length_eq_zero_iff.mp (by simpa using hlen)
+        subst this
+        have hB0 : ¬ (ch * f.bytes = 0) := by have := Fmt.bytes_pos f; have := Nat.mul_pos hpos this; omega
+        simp [loadLoop, wavNext, nextPacket, hB0, groupFrames]
+      · have hr' : 0 < r := Nat.pos_of_ne_zero hr
+        have hnp := nextPacket_encodeData f ch hpos r hr' rem hlen pre padd
+        have hqr : min r maxFramesPerPacket ≤ r := Nat.min_le_left _ _
+        have hq : 0 < min r maxFramesPerPacket := by simp only [maxFramesPerPacket]; omega
+        have hq2 : min r maxFramesPerPacket ≤ maxFramesPerPacket := Nat.min_le_right _ _
+        generalize hqd : min r maxFramesPerPacket = q at hnp hq hqr hq2
+        have hla : (rem.take (q * ch)).length = q * ch := by
+          rw [List.length_take, hlen]; exact Nat.min_eq_left (Nat.mul_le_mul_right ch hqr)
+        have hdec := decodePacket_encodeData fd f ch rate (ch * f.bytes) hch q hq2 (rem.take (q * ch)) hla
+          (hrng.take _)
+        have hsplit : rem = rem.take (q * ch) ++ rem.drop (q * ch) := (List.take_append_drop _ rem).symm
+        have henc : encodeData f rem = encodeData f (rem.take (q * ch)) ++ encodeData f (rem.drop (q * ch)) := by
+          rw [← encodeData_append, ← hsplit]
+        have hea : (encodeData f (rem.take (q * ch))).length = q * (ch * f.bytes) := by
+          rw [encodeData_length, hla, Nat.mul_assoc]
+        -- the reader seen from the new offset
+        have hdata : pre ++ (encodeData f rem ++ padd)
+            = (pre ++ encodeData f (rem.take (q * ch))) ++ (encodeData f (rem.drop (q * ch)) ++ padd) := by
+          rw [henc]; simp [List.append_assoc]
+        have hdl : pre.length + r * (ch * f.bytes)
+            = (pre ++ encodeData f (rem.take (q * ch))).length + (r - q) * (ch * f.bytes) := by
+          rw [List.length_append, hea, Nat.add_assoc, ← Nat.add_mul, Nat.add_sub_cancel' hqr]
+        have hlen' : (rem.drop (q * ch)).length = (r - q) * ch := by
+          rw [List.length_drop, hlen, Nat.sub_mul]
+        have ih' := ih (r - q) (by omega) (rem.drop (q * ch)) (pre ++ encodeData f (rem.take (q * ch))) fuel
+          (acc ++ (groupFrames ch q (rem.take (q * ch))).map (frameOfCodes fd f ch)) hlen' (hrng.drop _)
+          (by omega)
+        rw [← hdata, ← hdl] at ih'
+        simp only [loadLoop, wavNext, hnp, hdec]
+        rw [ih']
+        have hg := groupFrames_split ch q (r - q) rem
+        rw [Nat.add_sub_cancel' hqr] at hg
+        rw [hg, List.map_append, List.append_assoc]
+
+/-- the RIFF size field can hold a file with `L` data bytes -/
+def FitsRiff (L : Nat) : Prop := 36 + L + L % 2 < 4294967296
+
+/-- **static load of an encoded file (1 or 2 channels)**: exactly the encoded frames, in order,
+    with the header's sample rate -/
+theorem loadStatic_encode (fd : FloatDec α) (s : Spec) (hs : s.Decodable)
+    (hch : s.channels = 1 ∨ s.channels = 2) (m : Nat) (codes : List Nat)
+    (hlen : codes.length = m * s.channels) (hr : InRange s.fmt codes)
+    (hL : FitsRiff (codes.length * s.fmt.bytes)) :
+    loadStatic fd (encode s codes)
+      = .ok (s.rate, (groupFrames s.channels m codes).map (frameOfCodes fd s.fmt s.channels)) := by
+  unfold loadStatic encode
+  rw [encodeData_length, parse_header s hs _ hL]
+  simp only [Spec.chunk]
+  have hdl : codes.length * s.fmt.bytes = ([] : List UInt8).length + m * (s.channels * s.fmt.bytes) := by
+    rw [hlen, Nat.mul_assoc]; simp
+  have hdata : encodeData s.fmt codes ++ pad (codes.length * s.fmt.bytes)
+      = [] ++ (encodeData s.fmt codes ++ pad (codes.length * s.fmt.bytes)) := rfl
+  have hfuel : m < (encodeData s.fmt codes ++ pad (codes.length * s.fmt.bytes)).length + 2 := by
+    rw [List.length_append, encodeData_length, hlen]
+    have := Fmt.bytes_pos s.fmt
+    have h1 : m ≤ m * s.channels := Nat.le_mul_of_pos_right _ (by omega)
+    have h2 : m * s.channels ≤ m * s.channels * s.fmt.bytes := Nat.le_mul_of_pos_right _ this
+    omega
+  have := loadLoop_encodeData fd s.fmt s.channels s.rate hch (some ⟨s.fmt, s.channels, s.rate, s.channels * s.fmt.bytes⟩)
+    (pad (codes.length * s.fmt.bytes)) m codes [] _ [] hlen hr hfuel
+  rw [← hdata, ← hdl] at this
+  simp only [List.length_nil] at this
+  rw [this]
+  simp
+
+/-- **more than two channels are rejected** as soon as there is one whole frame to decode -/
+theorem loadStatic_encode_multichannel (fd : FloatDec α) (s : Spec) (hs : s.Decodable)
+    (hch : 3 ≤ s.channels) (m : Nat) (hm : 0 < m) (codes : List Nat)
+    (hlen : codes.length = m * s.channels) (hL : FitsRiff (codes.length * s.fmt.bytes)) :
+    loadStatic fd (encode s codes) = .error .chan := by
+  unfold loadStatic encode
+  rw [encodeData_length, parse_header s hs _ hL]
+  simp only [Spec.chunk]
+  have hdl : codes.length * s.fmt.bytes = ([] : List UInt8).length + m * (s.channels * s.fmt.bytes) := by
+    rw [hlen, Nat.mul_assoc]; simp
+  have hnp := nextPacket_encodeData s.fmt s.channels (by omega) m hm codes hlen [] (pad (codes.length * s.fmt.bytes))
+  rw [← hdl] at hnp
+  simp only [List.nil_append, List.length_nil] at hnp
+  have hne : ¬ (s.channels = 1 ∨ s.channels = 2) := by omega
+  simp only [loadLoop, wavNext, hnp, decodePacket, assemble, hne, if_false]
+
+end Load
+
 end Wav
 end K
